@@ -1,7 +1,7 @@
 (* Checks.v — executable statements of C02, C04, C10 on compiled trees (the
    implementation's or the model's), used by the case files.  Definitions only. *)
 From Coq Require Import List String Ascii QArith ZArith Bool.
-From Bq Require Import Expr StdSem RepModel Routine Compile Preprocess Compare CompileTop DenSrc Scoped.
+From Bq Require Import Expr StdSem RepModel Routine Compile Preprocess Compare CompileTop DenSrc Scoped Derived.
 Import ListNotations.
 Open Scope string_scope.
 
@@ -371,15 +371,29 @@ Fixpoint prune_vt (fuel : nat) (x : string) (r : routine) (v : vtree) : vtree :=
       end
   end.
 
-(* r' : the routine with the resource declared on its leaves; x : the resource's name *)
-Definition check_derived_leaf (r' : routine) (x : string) (impl : impl_result) (inexact : bool) (pts : list (list (string * Q)))
+(* compile_routine(..., derived_resources=calcs): the model of the code (Derived.go_d) *)
+Definition compile_routine_d (calcs : list (calc expr)) (r : routine) : result (ctree expr) :=
+  do ir <- preprocess r; go_d ev_subst statusE fv calcs (S (height ir)) ir [].
+
+(* r : the routine as handed over; x ty of a b : the leaf calculator (x := a * <resource `of`> + b on childless routines);
+   r' : the routine with that resource DECLARED on its leaves.
+   tie: the real compilation with the derived resource against the model of `_add_derived_resources`;
+   spec: against the bottom-up denotation of r', the resource kept where it can reach (leaves, repetitions of such) *)
+Definition check_derived_leaf (r r' : routine) (x : string) (ty : rtype) (of : string) (a b : Q)
+           (impl : impl_result) (inexact : bool) (pts : list (list (string * Q)))
   : list nat * list nat :=
-  (match compile_routine r', impl with
-   | Ok m0, IOk t =>
-       let m := prune_ct (S (ct_height m0)) x r' m0 in
+  (match compile_routine_d [leaf_calc_e x ty of a b] r, impl with
+   | Ok m, IOk t =>
        (cmp_trees (S (ct_height m)) inexact
                   (filter (fun rho => counts_natural (S (ct_height m)) rho m) (points_of pts)) m t
-        ++ cmp_params (S (ct_height m)) m t)%list
+        ++ cmp_params (S (ct_height m)) m t
+        (* ... and the model of the code agrees with the declared-on-the-leaves reading, pruned *)
+        ++ match compile_routine r' with
+           | Ok m0 => let mp := prune_ct (S (ct_height m0)) x r' m0 in
+                      cmp_trees (S (ct_height mp)) false
+                                (filter (fun rho => counts_natural (S (ct_height mp)) rho mp) (points_of pts)) mp m
+           | _ => [1%nat]
+           end)%list
    | Ok m, IErr cls => [if String.eqb cls "BartiqCompilationError" && undecided_but_violated (S (ct_height m)) (points_of pts) m
                         then 0%nat else 1%nat]
    | res, IErr cls => [if String.eqb (err_class res) cls then 0%nat else 1%nat]
